@@ -361,7 +361,14 @@ func genRect(rng *rand.Rand, w int) lpoly {
 				cx, cy := (ha+g+hb-g+ha+g)/3, m
 				if hb-ha >= 18 && top-bot >= 18 {
 					p = append(p, hole)
-					hole = [][2]int{{cx - 1, cy - 1}, {cx - 1, cy + 2}, {cx + 2, cy + 2}, {cx + 2, cy - 1}}
+					sd := (hb - ha - 2*g) * 2 / 5 // two fifths of the island's width: wide enough for coverage samples farther than a pixel from its boundary
+					if sd < 3 {
+						sd = 3
+					}
+					if sd > (top-bot-2*g)/4 {
+						sd = (top - bot - 2*g) / 4
+					}
+					hole = [][2]int{{cx - sd/2, cy - sd/2}, {cx - sd/2, cy + (sd+1)/2}, {cx + (sd+1)/2, cy + (sd+1)/2}, {cx + (sd+1)/2, cy - sd/2}}
 				}
 			}
 			p = append(p, hole)
